@@ -215,11 +215,18 @@ def _main(args, pid, tier, seed, t0, mod, builds, scratch):
                 out.append(("skipped", cur, None))
                 continue
             status, res, prog, tail, wall = run_worker(cur, scratch, cur.get("timeout", unit_timeout))
-            if status in ("timeout", "exit17", HARD_KILL):
+            crashed = status.startswith("exit-") and status != HARD_KILL  # died from a signal (SIGSEGV, SIGABRT ...)
+            if status in ("timeout", "exit17", HARD_KILL) or crashed:
                 # hang policy: find the case, re-run it alone. Alone, only the worker's own no-progress watchdog
                 # (exit 17: not one bounded piece of work completed in case_timeout seconds) confirms a hang; the
                 # generous outer wall-clock limit firing while the case still makes progress is inconclusive.
                 if cur.get("alone"):
+                    if crashed:
+                        # alone, the case kills the interpreter again: a crash inside the compiled library (the
+                        # harness itself is pure Python) - e.g. unbounded C-level recursion
+                        out.append(("crash", cur, "(worker died: %s)\n%s" % (status, tail)))
+                        hang_confirmed.append(cur["uid"])
+                        continue
                     if status in ("exit17", HARD_KILL):
                         if status == HARD_KILL:
                             tail = "(killed by its CPU-time watchdog: the interpreter never got to run the no-progress handler - a loop inside compiled code)\n" + tail
@@ -279,6 +286,18 @@ def _main(args, pid, tier, seed, t0, mod, builds, scratch):
             continue
         if kind == "fault":
             faults.append("[%s] %s" % (u["build"], payload))
+            continue
+        if kind == "crash":
+            violations.append(
+                {
+                    "oracle": "process-crash",
+                    "mechanism": "crash",
+                    "build": u["build"],
+                    "detail": "re-run alone, the case killed the worker process again (%s)" % payload.splitlines()[0][:80],
+                    "case": {"unit": {k: v for k, v in u.items() if k not in ("build_dir", "progress")}},
+                    "stacks": payload[-2500:],
+                }
+            )
             continue
         if kind == "hang":
             violations.append(
